@@ -79,6 +79,17 @@ pub fn gen_case(rng: &mut Rng, faults: bool) -> CliCase {
         97 => OutState::ExistingOtherSort,
         _ => OutState::IsDirectory,
     };
+    // convert in place / through a link to the input: only meaningful (and only free of blocking opens) for a regular input file
+    let output = if matches!(input, InState::Present(_)) && rng.pct(3) {
+        output_name = "link to input.rs".to_string();
+        if rng.pct(50) {
+            OutState::SameAsInput
+        } else {
+            OutState::SymlinkToInput
+        }
+    } else {
+        output
+    };
     let serde_xml_rs = rng.pct(40);
     let by_name = rng.pct(40);
     let mut opts: Vec<Vec<String>> = Vec::new();
@@ -101,7 +112,7 @@ pub fn gen_case(rng: &mut Rng, faults: bool) -> CliCase {
         });
     }
     let derive = if rng.pct(60) {
-        let d = rng.pick(&["Debug", "", "Serialize, Deserialize", "Debug, Clone", "Привет", "A B", "x=y", "Debug,Default", " ", "Deserialize", "serde::Serialize, serde::Deserialize", "Clone, serde::Deserialize", "::std::fmt::Debug, PartialEq", "some::very::long::qualified::path::to::a::derive::macro::that::goes::on::and::on::and::on::for::more::than::a::hundred::columns::Trait", "A, B, C, D, E, F, G, H, I, J, K, L, M, N, O, P, Q, R, S, T, U, V, W, X, Y, Z, A1, B1, C1, D1, E1, F1, G1, H1, I1, J1, K1, L1"]).to_string();
+        let d = rng.pick(&["Debug", "", "Serialize, Deserialize", "Debug, Clone", "Привет", "A B", "x=y", "Debug,Default", " ", "Deserialize", "serde::Serialize, serde::Deserialize", "Clone, serde::Deserialize", "::std::fmt::Debug, PartialEq", "some::very::long::qualified::path::to::a::derive::macro::that::goes::on::and::on::and::on::for::more::than::a::hundred::columns::Trait", "A, B, C, D, E, F, G, H, I, J, K, L, M, N, O, P, Q, R, S, T, U, V, W, X, Y, Z, A1, B1, C1, D1, E1, F1, G1, H1, I1, J1, K1, L1", "#[derive(Debug, Clone)]", "#[derive)(", ")("]).to_string();
         opts.push(match rng.below(4) {
             0 => vec!["--derive".into(), d.clone()],
             1 => vec![format!("--derive={d}")],
@@ -223,7 +234,8 @@ pub fn judge(case: &CliCase, expected: &Option<String>, out: &CliOut, ctr: &mut 
                     format!("the input was at fault but the output path changed: before exists={} len={} ino={} / after exists={} len={} ino={}", a.exists, a.bytes.len(), a.ino, b.exists, b.bytes.len(), b.ino),
                 );
             }
-            if f.opens_of_output > 0 {
+            // (when the output *is* the input, opening it for reading is not an offence)
+            if f.opens_of_output > 0 && !matches!(case.output, OutState::SameAsInput | OutState::SymlinkToInput) {
                 return v(&format!("output_opened_on_input_fault{sfx}"), "the output path was opened although the input was at fault".into());
             }
         }
@@ -327,6 +339,9 @@ pub fn exec_case(case: &CliCase, ctr: &mut Ctr) -> Result<Exec, String> {
     };
     let out = crate::cli::run_cli_with(case, case.entropy, &sb, expected.as_deref())?;
     let f = &out.fired;
+    if out.stderr_was_terminal {
+        bump(ctr, "fault.stderr_is_a_terminal");
+    }
     if out.report.is_empty() {
         // the program as it stands always reads its input, so its report is never empty; an empty one means that
         // LD_PRELOAD did not take (harness error) - unless the canary shows that the shim is fine and this run simply
@@ -434,6 +449,8 @@ pub fn exec_case(case: &CliCase, ctr: &mut Ctr) -> Result<Exec, String> {
         OutState::DanglingSymlink => 7,
         OutState::ExistingOtherSort => 8,
         OutState::ExistingReadOnly(_) => 9,
+        OutState::SameAsInput => 10,
+        OutState::SymlinkToInput => 11,
     });
     env.u64(expected.is_some() as u64);
     Ok(Exec { violation, trace: tr.0, fingerprint: fp.0, nontrivial: fired_any || failure_path, sim_steps: f.calls, discarded: None, shape: 0, env_sig: env.0 })
